@@ -184,6 +184,7 @@ def make_plan(ctx, cases, acc):
 
 def body(ctx):
     ctx.model("PermLaws.tla", timeout=1200)
+    ctx.model("K_Transpose.tla", timeout=600)
     acc = load_accept()
     text, cases = generate(ctx, acc)
     gh = hashlib.sha256(text.encode()).hexdigest()[:16]
